@@ -128,8 +128,9 @@ def work(spec):
     part = harness.new_partial()
     srcs = sources(spec)
     cases = [{"mode": "step", "main": m, "files": f,
-              "opts": [("budget", 30000), ("maxstops", 300), ("program", 1), ("views", 0), ("enable_check", 1), ("abandon", 20)]}
-             for f, m, _ in srcs]
+              "opts": [("budget", 30000), ("maxstops", 300), ("program", 1), ("views", 0), ("enable_check", 1), ("abandon", 20),
+                       ("disasm", i % 2)]}   # every second program is printed with Program::disassemble() first
+             for i, (f, m, _) in enumerate(srcs)]
     outs, _ = common.run_batch(cases)
     for (files, main, kind), case, r_ in zip(srcs, cases, outs):
         part["evals"] += 1
